@@ -223,6 +223,8 @@ class Served:
         self.config.bind = [f"127.0.0.1:{self.port}"]
         self.config.accesslog = None
         self.config.errorlog = None
+        # (trio only) serve() without a shutdown trigger, the way `trio.run(serve, app, config)` is documented
+        self.no_trigger = bool(cfg.pop("_no_trigger", False))
         for k, v in cfg.items():
             setattr(self.config, k, v)
         self.app = app
@@ -256,7 +258,10 @@ class Served:
                     while not self.trigger.is_set():
                         await trio.sleep(0.01)
 
-                trio.run(lambda: serve(self.app, self.config, shutdown_trigger=trig))
+                if self.no_trigger:
+                    trio.run(lambda: serve(self.app, self.config))
+                else:
+                    trio.run(lambda: serve(self.app, self.config, shutdown_trigger=trig))
         except BaseException as e:  # noqa: BLE001
             self.result["error"] = e
         finally:
